@@ -43,6 +43,8 @@ func tClass(cf bgvu.Conf) string {
 		return "65537"
 	case cf.T < 1<<31:
 		return "30bit"
+	case cf.T < 1<<46:
+		return "45bit-above-chain-primes"
 	default:
 		return "60bit"
 	}
@@ -66,6 +68,13 @@ func configs(tier string) []conf {
 		)
 	}
 	var r []conf
+	// plaintext modulus LARGER than some primes of the chain (legal: only t <= Q[0]/2 is required): 45-bit t over
+	// Q = 56 + 4 x 30 bits. Residues of centred scalars / plaintext coefficients then exceed the small primes, which
+	// takes every "reduce a (negative) integer modulo each q_i" path through its multi-wrap case. BGV mode as a main
+	// parameter set, BFV mode as a secondary one in quick (main in thorough).
+	t45 := bgvu.Conf{Name: "t45b-q56+30x4-p56x1", LogN: 4, NQ: 5, NP: 1, T: bgvu.PlainModulus(4, 45),
+		Q: append(uni.Primes(4, 56, 1), uni.Primes(4, 30, 4)...), P: uni.PrimesSkip(4, 56, 1, 1)}
+	r = append(r, conf{Conf: t45}, conf{Conf: t45, si: true, light: tier != "thorough"})
 	for _, b := range base {
 		// quick: the two mid-size plaintext moduli with full plaintext ring share the work (65537 in BGV mode, the
 		// 30-bit one in BFV mode); thorough runs every parameter set in both modes
